@@ -165,6 +165,10 @@ def pot_shape(shape: str) -> dict:
         body = ['mon.write("#d0")', "if p0.read() or zero:", '    mon.write("nz")', 'mon.write("#d0")', "keep = p0.read() and one", 'mon.write("#d0")',
                 "if not p0.read():", '    mon.write("z")', 'mon.write("#d0")', "keep = one if p0.read() else zero", 'mon.write("#d0")', "if zero or p0.read() or one:", '    mon.write("any")']
         meta.update(pots=[{"i": 0, "pin": 15}], per_pass=[0] * 5, in_setup=[])
+    elif shape == "comp":        # a burst of samples: the element expression of a comprehension runs once per element
+        decl, setup = 'p0 = Potentiometer("A1")\n', ""
+        body = ['mon.write("#q0x3")', "burst = [p0.read() for k in range(3)]", "mon.write(burst[0])", "mon.write(burst[1])", "mon.write(burst[2])"]
+        meta.update(pots=[{"i": 0, "pin": 15}], per_pass=[0] * 3, in_setup=[])
     elif shape in ("tuple2", "tuple3fn", "seqsum"):
         # several read() calls of one potentiometer inside ONE statement / expression list: the marker "#q0x<n>" announces
         # n calls whose results are printed afterwards in evaluation order (project_pot re-serialises them)
